@@ -52,6 +52,9 @@ func runWalk(c *Ctx) {
 		return false
 	}
 
+	// the resolver's walk may be spread over private helpers (per-kind arm methods, walk steps)
+	inRes := func(f *ssa.Function) bool { return core.Outer(f) == res || p.InRegion(f, res) }
+
 	// ---------------- WALK: classify every store to <vertex>.Value outside composite literals
 	n := 0
 	type snap struct {
@@ -70,7 +73,7 @@ func runWalk(c *Ctx) {
 			if !ok || fr.Field != "Value" {
 				return
 			}
-			if fr.Owner == "callState" && core.Outer(f) == res {
+			if fr.Owner == "callState" && inRes(f) {
 				if src, ok := core.AsFieldLoad(st.Val); ok && src.Field == "Value" && kinds.Label(src.Owner) {
 					snaps = append(snaps, snap{st, src.Base})
 					n++
@@ -92,7 +95,7 @@ func runWalk(c *Ctx) {
 			key := fmt.Sprintf("%s|%s.Value#%d", name, fr.Owner, n)
 			lits := core.Lits(core.Guards(st.Block()))
 			switch {
-			case core.Outer(f) == res:
+			case inRes(f):
 				// (1) typedArg.Value = state.Value, guarded by validity and assignability
 				if src, ok := core.AsFieldLoad(st.Val); ok && src.Owner == "callState" && src.Field == "Value" && fr.Owner == kinds.Arg {
 					valid, assignable := false, false
@@ -123,9 +126,9 @@ func runWalk(c *Ctx) {
 					// one-level helper form: r, ok := prev(path, idx) with ok guarding the store
 					if e, ok := src.Base.(*ssa.Extract); ok && e.Index == 0 {
 						if hc, ok := e.Tuple.(*ssa.Call); ok && c.isPrevTypedOutputHelper(hc.Common().StaticCallee(), kinds.Out) && len(hc.Common().Args) == 2 {
-							if cur := assertOf(fr.Base); cur != nil {
+							if cur := assertOf(p.Bind(fr.Base)); cur != nil {
 								if cld, ok := cur.X.(*ssa.UnOp); ok {
-									if cia, ok := cld.X.(*ssa.IndexAddr); ok && cia.X == hc.Common().Args[0] && cia.Index == hc.Common().Args[1] {
+									if cia, ok := cld.X.(*ssa.IndexAddr); ok && cia.X == p.Bind(hc.Common().Args[0]) && cia.Index == p.Bind(hc.Common().Args[1]) {
 										for _, l := range lits {
 											if l.Kind == "bool" && l.Pol {
 												if e2, ok := l.Of.(*ssa.Extract); ok && e2.Tuple == ssa.Value(hc) && e2.Index == 1 {
@@ -144,9 +147,9 @@ func runWalk(c *Ctx) {
 								if b, ok := ia.Index.(*ssa.BinOp); ok && b.Op == token.SUB {
 									if k, ok := core.ConstInt(b.Y); ok && k == 1 {
 										// same path and index as the current vertex
-										if cur := assertOf(fr.Base); cur != nil {
+										if cur := assertOf(p.Bind(fr.Base)); cur != nil {
 											if cld, ok := cur.X.(*ssa.UnOp); ok {
-												if cia, ok := cld.X.(*ssa.IndexAddr); ok && cia.X == ia.X && cia.Index == b.X {
+												if cia, ok := cld.X.(*ssa.IndexAddr); ok && cia.X == p.Bind(ia.X) && cia.Index == p.Bind(b.X) {
 													prevOK = true
 												}
 											}
